@@ -106,71 +106,47 @@ Proof.
 Qed.
 Print Assumptions C16_maybe_resize_abort_permitted.
 
-(* ---- uv_write2: refuted on the current code (item 7) ------------------------------ *)
-Theorem C16_write2_fault_safe_refuted :
-  exists (w : world) (l : ledger),
-    o_res (uv_write2 6 false true l w) = Ret (RcErr ENOMEM) /\ o_led (uv_write2 6 false true l w) <> l.
-Proof. exact write2_refuted_witness. Qed.
-Print Assumptions C16_write2_fault_safe_refuted.
-
-(* what holds: the result clause; after UV_ENOMEM the ledger is the old one except that the
-   request stays counted *)
-Theorem C16_write2_partial :
+(* ---- uv_write2 (item 7, repaired in /repo by f63c297: full statement) ------------------------ *)
+Theorem C16_write2_fault_safe :
   forall n c e l w,
   let o := uv_write2 n c e l w in
   (o_res o = Ret RcOk /\ l_reqs (o_led o) = l_reqs l + 1) \/
-  (o_res o = Ret (RcErr ENOMEM) /\ In false (w_alloc w) /\ o_led o = add_reqs 1 l).
-Proof. exact write2_partial. Qed.
-Print Assumptions C16_write2_partial.
+  (o_res o = Ret (RcErr ENOMEM) /\ In false (w_alloc w) /\ o_led o = l).
+Proof. exact write2_fault_safe. Qed.
+Print Assumptions C16_write2_fault_safe.
 
-(* with the allocation moved in front of uv__req_init the full statement holds *)
-Theorem C16_write2_fixed_fault_safe :
-  forall n c e l w,
-  let o := uv_write2_fixed n c e l w in
-  o_res o = Ret RcOk \/ (o_res o = Ret (RcErr ENOMEM) /\ In false (w_alloc w) /\ o_led o = l).
-Proof. exact write2_fixed_fault_safe. Qed.
-Print Assumptions C16_write2_fixed_fault_safe.
+(* history: the order before f63c297 (register, then allocate) does not satisfy it, and differs
+   from the current code in nothing else *)
+Theorem C16_write2_unfixed_refuted :
+  (exists (w : world) (l : ledger),
+    o_res (uv_write2_unfixed 6 false true l w) = Ret (RcErr ENOMEM) /\
+    o_led (uv_write2_unfixed 6 false true l w) = add_reqs 1 l /\ o_led (uv_write2_unfixed 6 false true l w) <> l) /\
+  (forall n c e l w, o_res (uv_write2 n c e l w) = Ret RcOk ->
+     obs (uv_write2_unfixed n c e l w) = obs (uv_write2 n c e l w)).
+Proof. split; [exact write2_unfixed_refuted | exact write2_unfixed_same_on_success]. Qed.
+Print Assumptions C16_write2_unfixed_refuted.
 
-(* ---- uv_fs_poll_start: refuted (item 8) ---------------------------------------------- *)
-Theorem C16_fs_poll_start_fault_safe_refuted :
-  exists (w : world) (l : ledger),
-    o_res (uv_fs_poll_start false true l w) = Ret (RcErr ENOMEM) /\
-    l_dangling (o_led (uv_fs_poll_start false true l w)) = l_dangling l + 1 /\
-    l_hq (o_led (uv_fs_poll_start false true l w)) = l_hq l + 1.
-Proof. exact fs_poll_start_refuted_witness. Qed.
-Print Assumptions C16_fs_poll_start_fault_safe_refuted.
+(* ---- uv_fs_poll_start (item 8, repaired in /repo by 9bc8132: full statement) ------------------ *)
+Theorem C16_fs_poll_start_fault_safe :
+  forall act ps l w, safe_outcome l w (uv_fs_poll_start act ps l w).
+Proof. exact fs_poll_start_fault_safe. Qed.
+Print Assumptions C16_fs_poll_start_fault_safe.
 
-Theorem C16_fs_poll_start_partial :
-  forall act ps l w,
-  let o := uv_fs_poll_start act ps l w in
-  o_res o = Ret RcOk \/
-  (o_res o = Ret (RcErr ENOMEM) /\ In false (w_alloc w) /\
-   (o_led o = l \/ o_led o = add_dangling 1 (add_hq 1 l))) \/
-  (exists s, o_res o = Abort s /\ permitted s = true).
-Proof. exact fs_poll_start_partial. Qed.
-Print Assumptions C16_fs_poll_start_partial.
-
-(* ---- uv_os_environ: refuted (item 9) ---------------------------------------------------- *)
-Theorem C16_os_environ_fault_safe_refuted :
-  exists (env : list bool) (w : world) (l : ledger),
-    o_res (uv_os_environ env l w) = Ret (RcErr ENOMEM) /\ l_mem (o_led (uv_os_environ env l w)) = l_mem l + 2.
-Proof. exact os_environ_refuted_witness. Qed.
-Print Assumptions C16_os_environ_fault_safe_refuted.
-
-Theorem C16_os_environ_partial :
+(* ---- uv_os_environ (item 9, repaired in /repo by 75025a4: full statement) ---------------------- *)
+Theorem C16_os_environ_fault_safe :
   forall env l w,
   let o := uv_os_environ env l w in
-  (o_res o = Ret RcOk) \/
-  (o_res o = Ret (RcErr ENOMEM) /\ In false (w_alloc w) /\ exists k, 0 <= k /\ o_led o = add_mem k l).
-Proof. exact os_environ_partial. Qed.
-Print Assumptions C16_os_environ_partial.
-
-Theorem C16_os_environ_fixed_fault_safe :
-  forall env l w,
-  let o := uv_os_environ_fixed env l w in
   o_res o = Ret RcOk \/ (o_res o = Ret (RcErr ENOMEM) /\ In false (w_alloc w) /\ o_led o = l).
-Proof. exact os_environ_fixed_fault_safe. Qed.
-Print Assumptions C16_os_environ_fixed_fault_safe.
+Proof. exact os_environ_fault_safe. Qed.
+Print Assumptions C16_os_environ_fault_safe.
+
+(* history: freeing slot [cnt] instead of [i] leaked every name duplicated so far *)
+Theorem C16_os_environ_unfixed_refuted :
+  exists (env : list bool) (w : world) (l : ledger),
+    o_res (uv_os_environ_unfixed env l w) = Ret (RcErr ENOMEM) /\
+    l_mem (o_led (uv_os_environ_unfixed env l w)) = l_mem l + 2.
+Proof. exact os_environ_unfixed_refuted. Qed.
+Print Assumptions C16_os_environ_unfixed_refuted.
 
 (* ---- uv_fs_event_start (item 17) ---------------------------------------------------------- *)
 (* on every error return the request / handle / allocation accounting is untouched; the
@@ -196,12 +172,19 @@ Print Assumptions C16_fs_event_start_watch_refuted.
 
 (* ---- uv_spawn -------------------------------------------------------------------------------- *)
 (* every error return leaves request / active-handle counters and the allocation ledger as
-   before; the process handle itself is linked into handle_queue (it must be closed) *)
+   before; the process handle itself is linked into handle_queue (it must be closed); every
+   descriptor created by the call is closed again, except - when the failure is the signal pipe
+   or fork() - the parent ends of the stdio pipes, which the caller's stream handles own then *)
 Theorem C16_spawn_error_accounting :
   forall stdio fc l w r,
   o_res (uv_spawn stdio fc l w) = Ret r -> r <> RcOk ->
-  same_accounting (add_hq 1 l) (o_led (uv_spawn stdio fc l w)).
-Proof. exact spawn_error_accounting. Qed.
+  same_accounting (add_hq 1 l) (o_led (uv_spawn stdio fc l w)) /\
+  (l_fds (o_led (uv_spawn stdio fc l w)) = l_fds l \/
+   l_fds (o_led (uv_spawn stdio fc l w)) = l_fds l + Z.of_nat (npipes stdio)).
+Proof.
+  intros stdio fc l w r H N. split; [exact (spawn_error_accounting stdio fc l w r H N)|].
+  exact (spawn_error_fds stdio fc l w r H N).
+Qed.
 Print Assumptions C16_spawn_error_accounting.
 
 (* ---- uv_loop_init (item 10 repaired in /repo by 9298bc0; item 23 still refuted) ------------------ *)
